@@ -25,6 +25,7 @@ RULE = ("operations: init(app, unit) / stop(app) / subroutines doing qalloc, qfr
         "leave every other application's registers, arrays, shared memory and unit module (and the other controller) "
         "untouched; after stop nothing of the application remains and the same id registers again."
         ' Early arrivals (a keep-response whose memory position is reserved before the matching recv is posted, possibly across a stop and re-registration); a second bounded search from two registered applications over an alphabet of blocking subroutines, deliveries and early arrivals; SDK-level walks (connections of one party opened and closed in any order with explicit and automatic application ids, allocating / freeing / writing) under the same invariants. '
+        ' A second registration of an id that is still registered must be refused and change nothing. '
         "Non-trivial = every "
         "history with >= 2 applications active at some point; distinct = distinct operation sequence; 'states' = "
         "distinct abstract controller states visited.")
